@@ -1,7 +1,9 @@
 package props
 
 import (
+	"fmt"
 	"math/big"
+	"strings"
 
 	"github.com/DOSNetwork/core/share"
 	"github.com/dedis/kyber"
@@ -197,6 +199,31 @@ func randCoeffs(rng *hx.Rng, t int, q *big.Int) []*big.Int {
 
 func eqBig(a, b *big.Int) bool { return a.Cmp(b) == 0 }
 
+// the values of the share objects (nil entries included), to see whether a call changed its inputs
+func priSnapshot(g kyber.Group, shs []*share.PriShare) string {
+	var sb strings.Builder
+	for _, s := range shs {
+		if s == nil || s.V == nil {
+			sb.WriteString("nil;")
+			continue
+		}
+		fmt.Fprintf(&sb, "%d:%s;", s.I, ScVal(g, s.V).String())
+	}
+	return sb.String()
+}
+
+func pubSnapshot(shs []*share.PubShare) string {
+	var sb strings.Builder
+	for _, s := range shs {
+		if s == nil || s.V == nil {
+			sb.WriteString("nil;")
+			continue
+		}
+		fmt.Fprintf(&sb, "%d:%x;", s.I, PtBytes(s.V))
+	}
+	return sb.String()
+}
+
 func c09Recover(rng *hx.Rng, w *hx.Writer, grp int, t, n int, coeffs []*big.Int, ents []shareEnt, which int) {
 	g := GroupOf(grp)
 	q := OrderOf(grp)
@@ -209,15 +236,28 @@ func c09Recover(rng *hx.Rng, w *hx.Writer, grp int, t, n int, coeffs []*big.Int,
 	switch which {
 	case 2: // RecoverSecret
 		cnt, dup := usableStats(ents, n, t)
+		mutated := ""
 		impl := hx.Catch(func() string {
-			s, err := share.RecoverSecret(g, priShares(g, ents, q), t, n)
+			shs := priShares(g, ents, q)
+			before := priSnapshot(g, shs)
+			s, err := share.RecoverSecret(g, shs, t, n)
+			if priSnapshot(g, shs) != before {
+				mutated = "RecoverSecret changed the shares it was given"
+			}
 			if err != nil {
 				return hx.E
+			}
+			// the same share objects are used again (a second reconstruction, the polynomial)
+			if s2, err2 := share.RecoverSecret(g, shs, t, n); err2 != nil || !s2.Equal(s) {
+				mutated = "a second RecoverSecret over the same share objects gives another result"
 			}
 			return hx.Z(ScVal(g, s))
 		})
 		oracle := "ok"
-		if cnt < t {
+		if mutated != "" {
+			oracle = hx.Fail("recover-mutates-shares", mutated)
+			tags = append(tags, "secret-mutated")
+		} else if cnt < t {
 			tags = append(tags, "secret-toofew")
 			if impl != hx.E {
 				oracle = hx.Fail("recover-secret-below-threshold", "fewer than t usable shares but no error")
@@ -234,8 +274,14 @@ func c09Recover(rng *hx.Rng, w *hx.Writer, grp int, t, n int, coeffs []*big.Int,
 			Impl: impl, Oracle: oracle, Tags: tags})
 	case 3: // RecoverPriPoly
 		cnt, dup := usableStats(ents, n, t)
+		mutated := ""
 		impl := hx.Catch(func() string {
-			p, err := share.RecoverPriPoly(g, priShares(g, ents, q), t, n)
+			shs := priShares(g, ents, q)
+			before := priSnapshot(g, shs)
+			p, err := share.RecoverPriPoly(g, shs, t, n)
+			if priSnapshot(g, shs) != before {
+				mutated = "RecoverPriPoly changed the shares it was given"
+			}
 			if err != nil {
 				return hx.E
 			}
@@ -247,7 +293,10 @@ func c09Recover(rng *hx.Rng, w *hx.Writer, grp int, t, n int, coeffs []*big.Int,
 			return bigsVal(out)
 		})
 		oracle := "ok"
-		if cnt < t {
+		if mutated != "" {
+			oracle = hx.Fail("recover-mutates-shares", mutated)
+			tags = append(tags, "poly-mutated")
+		} else if cnt < t {
 			tags = append(tags, "poly-toofew")
 			if impl != hx.E {
 				oracle = hx.Fail("recover-poly-below-threshold", "fewer than t usable shares but no error")
@@ -264,15 +313,24 @@ func c09Recover(rng *hx.Rng, w *hx.Writer, grp int, t, n int, coeffs []*big.Int,
 			Impl: impl, Oracle: oracle, Tags: tags})
 	case 4: // RecoverCommit
 		cnt, dup := usableStats(ents, n, 0)
+		mutated := ""
 		impl := hx.Catch(func() string {
-			p, err := share.RecoverCommit(g, pubShares(g, ents, q), t, n)
+			shs := pubShares(g, ents, q)
+			before := pubSnapshot(shs)
+			p, err := share.RecoverCommit(g, shs, t, n)
+			if pubSnapshot(shs) != before {
+				mutated = "RecoverCommit changed the shares it was given"
+			}
 			if err != nil {
 				return hx.E
 			}
 			return hx.B(PtBytes(p))
 		})
 		oracle := "ok"
-		if cnt < t {
+		if mutated != "" {
+			oracle = hx.Fail("recover-mutates-shares", mutated)
+			tags = append(tags, "commit-mutated")
+		} else if cnt < t {
 			tags = append(tags, "commit-toofew")
 			if impl != hx.E {
 				oracle = hx.Fail("recover-commit-below-threshold", "fewer than t usable shares but no error")
